@@ -60,7 +60,8 @@ PROBES = ["switch_inside_mkdir_window", "crash_between_wrapper_cpp_writes", "tor
           "submodule_stem_with_dot_i", "submodule_h_extension", "cwd_is_source_dir",
           "crash_in_open_write_window", "second_run_over_existing_outputs",
           "mkdir_race_lost_after_isdir_false", "xml_store_changed_between_calls", "hashseed_varied_build",
-          "hashseed_build_with_2plus_submodules", "inputs_named_relative_to_cwd"]
+          "hashseed_build_with_2plus_submodules", "inputs_named_relative_to_cwd",
+          "xml_source_relative_to_cwd", "decoy_neighbours_present"]
 # (debris_of_killed_incarnation is counted when it happens; the unchanged tree never leaves any)
 
 
@@ -200,13 +201,20 @@ def gen_build(tape):
             cl = [c for mm in models for c in mm.classes()]
             if cl:
                 ignore = [tape.pick(cl, "ignore-cls").qname]
-        use_xml = tape.weighted([5, 2, 1], "xml")       # none / real tree / missing dir
-        xml_arg = ""
+        use_xml = tape.weighted([5, 2, 1, 2], "xml")    # none / real tree / missing dir / relative to the cwd
+        xml_arg = xml_abs = ""
         if use_xml == 1:
             xml_dir = R + "/xml"
-            xml_arg = xml_dir
+            xml_arg = xml_abs = xml_dir
         elif use_xml == 2:
-            xml_arg = R + "/no-such-xml"
+            xml_arg = xml_abs = R + "/no-such-xml"
+        elif use_xml == 3:
+            # `--xml_source xml`: the folder of that name in the working directory (all tasks of this module
+            # then run in the build directory); a folder of the same name next to the interface files is a
+            # decoy with different documentation
+            xml_dir = build + "/xml"
+            xml_arg, xml_abs = "xml", xml_dir
+            sc["xml_relative"] = True
         common = ["--module_name", mod, "--top_module_namespaces", top_ns, "--ignore"] + ignore + \
                  ["--template", tpl_path] + (["--use-boost-serialization"] if boost else []) + \
                  ["--xml_source", xml_arg]
@@ -216,21 +224,34 @@ def gen_build(tape):
             "name": "py%d-main" % j, "kind": "py-main", "mode": tape.weighted([3, 1], "mode"),
             "cwd": build, "locale": tape.wpick([("utf-8", 6), ("ascii", 1), ("latin-1", 1)], "locale"),
             "argv": ["pybind_wrap.py", "--src", ";".join([main_path] + subs), "--out", out] + common,
-            "targets": ["%s/%s.cpp" % (build, mod)], "srcs": [main_path], "tpl": tpl_path, "xml": xml_arg,
+            "targets": ["%s/%s.cpp" % (build, mod)], "srcs": [main_path], "tpl": tpl_path, "xml": xml_abs,
         })
         for p in subs:
             base = os.path.basename(p)
             stem = base.rsplit(".", 1)[0]
-            cwd = src if tape.bool(0.15, "sub-cwd-src") else build
+            cwd = src if (tape.bool(0.15, "sub-cwd-src") and use_xml != 3) else build
             sc["tasks"].append({
                 "name": "py%d-sub-%s" % (j, stem), "kind": "py-sub", "mode": tape.weighted([3, 1], "mode"),
                 "cwd": cwd, "locale": tape.wpick([("utf-8", 6), ("ascii", 1), ("latin-1", 1)], "locale"),
                 "argv": ["pybind_wrap.py", "--src", p, "--out", stem + ".cpp"] + common + ["--is_submodule"],
-                "targets": ["%s/%s.cpp" % (cwd, stem)], "srcs": [p], "tpl": tpl_path, "xml": xml_arg,
+                "targets": ["%s/%s.cpp" % (cwd, stem)], "srcs": [p], "tpl": tpl_path, "xml": xml_abs,
             })
     if xml_dir:
         for fn, data in _xml_for(all_models, tape).items():
             sc["inputs"]["%s/%s" % (xml_dir, fn)] = data
+    # decoys: plausible neighbours that are NOT inputs of any invocation (another edition of the docs next
+    # to the interface files, a template named like an interface file, settings files).  Reading one is an
+    # I2 violation, changing one an I1 violation, whatever the outputs look like.
+    if tape.bool(0.6, "decoys"):
+        sc["decoys"] = True
+        if xml_dir != src + "/xml":
+            for fn, data in _xml_for(all_models, tape, salt=" (decoy edition)").items():
+                sc["inputs"]["%s/xml/%s" % (src, fn)] = data
+        for t in list(sc["tasks"])[:3]:
+            stem = os.path.basename(t["srcs"][0]).rsplit(".", 1)[0]
+            sc["inputs"]["%s/%s.tpl" % (src, stem)] = b"// decoy template {module_def} {wrapped_namespace}\n"
+        sc["inputs"][build + "/.gtwrap"] = b"[gtwrap]\nxml_source = /simroot/src/xml\nignore = Foo\n"
+        sc["inputs"][src + "/wrap.cfg"] = b"top_module_namespaces = decoy\n"
     shared = n_ml == 2 and (family == 1 or tape.bool(0.6, "ml-shared-out"))
     for j in range(n_ml):
         mod = "tb%d" % j
@@ -568,6 +589,10 @@ def run_build(tape, ctx):
                 w.probe("cwd_is_source_dir")
         if s.get("relative_inputs"):
             w.probe("inputs_named_relative_to_cwd")
+        if sc.get("xml_relative") and s["kind"].startswith("py"):
+            w.probe("xml_source_relative_to_cwd")
+        if sc.get("decoys"):
+            w.probe("decoy_neighbours_present")
         if s["locale"] == "ascii" and \
                 any(any(b > 127 for b in sc["inputs"][p]) for p in s["srcs"] + ([s["tpl"]] if s.get("tpl") else [])):
             w.probe("ascii_locale_nonascii_input")
